@@ -74,3 +74,24 @@ def emit_case(reg, o, structure=None):
             "; c_expected := " + ct.copt(text, ct.cstr) +
             "; c_names_after := " + (ct.clist([f"({i}%N, {ct.copt(n, ct.cstr)})" for i, n in after]) if text is not None else "[]") + " |}")
     return term, text, err
+
+
+def layout_case(reg, nested):
+    """-> (coq term, structure or None)"""
+    from json_to_models.models.structure import compose_models, compose_models_flat
+    from . import impl
+    ptrs = []
+    for m in reg.models:
+        for p in m.pointers:
+            ptrs.append((ct.index_to_n(m.index), None if p.parent is None else ct.index_to_n(p.parent.index)))
+    try:
+        st = (compose_models if nested else compose_models_flat)(reg.models_map)
+        root, mapping = st
+        exp = ("(Some (" + ct.clist([node_term(d) for d in root]) + ", " +
+               ct.clist([f"({ct.index_to_n(k.index)}%N, {ct.index_to_n(v.index)}%N)" for k, v in mapping.items()]) + "))")
+    except Exception:  # noqa
+        st, exp = None, "None"
+    term = ("{| c_models := " + ct.clist([f"{ct.index_to_n(m.index)}%N" for m in reg.models]) +
+            "; c_ptrs := " + ct.clist([f"({t}%N, {ct.copt(p, lambda q: str(q) + '%N')})" for t, p in ptrs]) +
+            f"; c_nested := {ct.cbool(nested)}; c_expected := {exp} |}}")
+    return term, st
